@@ -328,6 +328,23 @@ fn kind_cases(tier: Tier) -> Vec<KCase> {
             }
         }
     }
+    // thorough: every triple of kinds (counts 2) and a large count (40) for every counted kind
+    if tier == Tier::Thorough {
+        for a in 0..KINDS.len() {
+            for b in (a + 1)..KINDS.len() {
+                for c in (b + 1)..KINDS.len() {
+                    v.push(KCase { kinds: vec![(a, 2), (b, 2), (c, 2)], layout: 1 + (a + b + c) % 2, op: 0, light: (a + c) % 2 == 0 });
+                }
+            }
+        }
+        for k in 0..KINDS.len() {
+            if KINDS[k].1 {
+                for layout in 0..3 {
+                    v.push(KCase { kinds: vec![(k, 40)], layout, op: 0, light: layout == 1 });
+                }
+            }
+        }
+    }
     // all at once
     for c in COUNTS {
         for layout in 0..3 {
@@ -463,7 +480,7 @@ fn run(ctx: &Ctx) -> i32 {
             level: "exploration",
             rule: "annotation kinds x counts {1,2,12} x sheet layouts {single, first of 3, last of 3}: every kind alone, every pair of kinds at every count combination, all kinds at once; sheet operations before save (remove first/last/active, rename, move active tab) for every kind and all at once; every annotation text channel x special string. Oracle: annotation dump (sheet list/order/names/visibility/active tab, merges, defined names, hyperlinks by cell, comments by cell, validations, conditional formats, filter, tab colour, panes/selection, page setup, header/footer, protection) before save == after reload, keyed by cell so that a swap or move is a key mismatch. distinct_nontrivial = distinct reloaded annotation dumps".into(),
             alphabets: json!({"kinds": KINDS.iter().map(|k| k.0).collect::<Vec<_>>(), "counts": COUNTS, "layouts": LAYOUTS, "sheet_ops": SHEET_OPS, "channels": CHANNELS.len(), "specials": SPECIALS.len(), "kind_cases": kind_cases(ctx.tier).len()}),
-            bounds: json!({"pairs_layouts": if ctx.tier == Tier::Thorough {"all 3 layouts"} else {"first-of-3 only"}, "max_items_per_kind": 12}),
+            bounds: json!({"pairs_layouts": if ctx.tier == Tier::Thorough {"all 3 layouts"} else {"first-of-3 only"}, "max_items_per_kind": if ctx.tier == Tier::Thorough {40} else {12}, "kind_triples": ctx.tier == Tier::Thorough}),
             exhaustive: true,
             caps_hit: vec![],
             assumptions: vec!["hyperlink tooltips and other fields the statement does not list are compared too when the model exposes them; fields the writer is documented to normalise are listed under corrections in DESIGN.md".into()],
